@@ -59,3 +59,40 @@ Print Assumptions C20_suback_registers.
 Theorem C20_unsuback_removes : Client.Props.C20_unsuback_removes.
 Proof. exact Client.ProofsDispatch.unsuback_removes. Qed.
 Print Assumptions C20_unsuback_removes.
+
+From Client Require PropsE2E ProofsE2E.
+
+(* END TO END: in a client whose private store results from any history of in-domain completions, an inbound PUBLISH with a good topic name invokes exactly one callback per held subscription (subscriber, filter) whose filter matches under section 4.7 - and nothing else *)
+Theorem C20_end_to_end : Client.PropsE2E.C20_end_to_end.
+Proof. exact Client.ProofsE2E.end_to_end. Qed.
+Print Assumptions C20_end_to_end.
+
+(* the completion of a SUBSCRIBE extends the history by one subscribe operation per GRANTED filter under a fresh subscriber *)
+Theorem C20_suback_tracks : Client.PropsE2E.C20_suback_tracks.
+Proof. exact Client.ProofsE2E.suback_tracks. Qed.
+Print Assumptions C20_suback_tracks.
+
+(* the completion of an UNSUBSCRIBE removes every subscriber of each of its filters *)
+Theorem C20_unsuback_tracks : Client.PropsE2E.C20_unsuback_tracks.
+Proof. exact Client.ProofsE2E.unsuback_tracks. Qed.
+Print Assumptions C20_unsuback_tracks.
+
+(* after a Subscribe completed and until an Unsubscribe names the filter, every message on a matching topic invokes the callback *)
+Theorem C20_callback_while_subscribed : Client.PropsE2E.C20_callback_while_subscribed.
+Proof. exact Client.ProofsE2E.callback_while_subscribed. Qed.
+Print Assumptions C20_callback_while_subscribed.
+
+(* after the Unsubscribe for a filter completed (and until it is subscribed again) no subscription with that filter is left to invoke anything *)
+Theorem C20_no_callback_after_unsubscribe : Client.PropsE2E.C20_no_callback_after_unsubscribe.
+Proof. exact Client.ProofsE2E.no_callback_after_unsubscribe. Qed.
+Print Assumptions C20_no_callback_after_unsubscribe.
+
+(* a single-filter request is silent after its Unsubscribe *)
+Theorem C20_single_filter_silenced : Client.PropsE2E.C20_single_filter_silenced.
+Proof. exact Client.ProofsE2E.single_filter_silenced. Qed.
+Print Assumptions C20_single_filter_silenced.
+
+(* any sequence of completions and deliveries keeps the client tracked *)
+Theorem C20_steps_track : Client.PropsE2E.C20_steps_track.
+Proof. exact Client.ProofsE2E.steps_track. Qed.
+Print Assumptions C20_steps_track.
